@@ -12,7 +12,7 @@ LEVEL = "exploration"
 TECHNIQUE = "Hypothesis-generated datasets and sampler histories; every random draw is intercepted and its parameters compared with an independently derived full conditional computed from the live state; exact affine check of the MVN routine"
 RULE = (
     "observed arity-2 datasets (1..5 samples, 2..7 treatments + control, 3..30 rows mixing combinations and single-agent rows, treatments seen only in the first, only "
-    "in the second or in both positions, samples/treatments of the experiment space without data), D in 1..4, 2..6 sampler steps under the default options, with "
+    "in the second or in both positions, samples/treatments of the experiment space without data), D in 1..4, 2..6 sampler steps under the default options (the generator handed over by set_rng, or in one case of four the one the constructor defaults leave), with "
     "reset_model calls and a second batch of observations between steps (the histories sampling.sample and repeated training produce); per step all 12 blocks are observed. Non-trivial = a checked draw for a coordinate with >=1 observation while some embedding is non-zero (from step 2 on); distinct = distinct "
     "case JSON; per-block draw counts are in counters."
 )
@@ -47,6 +47,8 @@ def _case(draw):
         "events": draw(st.lists(st.sampled_from(["none", "none", "none", "reset", "add"]), min_size=6, max_size=6)),
         "first_batch": draw(st.integers(1, 30)),
         "seed": draw(st.integers(0, 2**31 - 1)),
+        # one case in four: the model keeps the generator its constructor's defaults give it (no set_rng)
+        "default_generator": draw(st.integers(0, 3)) == 0,
     }
 
 
@@ -64,6 +66,8 @@ class Recorder:
         self.order = []
         self.counts = counts
         self.nontrivial_draws = 0
+        self.last_c = None
+        self.applied = []  # (block, coordinate, value returned by the multivariate draw)
 
     def fail(self, sub, msg):
         if len(self.failures) < 3:
@@ -211,21 +215,25 @@ class Recorder:
                 best = (err, c, mo, sd, m, nobs, e1, e2)
             if err <= 1:
                 break
+        self.last_c = None
         if best is None:
             return self.fail(b + ".extra_draw", "block %s: a multivariate draw although no coordinate with data is left" % b)
         err, c, mo, sd, m, nobs, e1, e2 = best
         if err > 1:
             return self.fail(b + ".full_conditional", "block %s: draw with mean Q^-1 b = %r matches no unvisited coordinate; closest is coordinate %d (%d observations) whose full conditional has mean %r and sd %r (precision-matrix error x%.1f, mean error x%.1f of tolerance)" % (b, m.tolist(), c, nobs, mo.tolist(), sd.tolist(), e1, e2))
         self.visited.add(c)
+        self.last_c = c
         self.counts[b + ".data"] += 1
         if self._nonzero_state(s):
             self.nontrivial_draws += 1
 
 
-class RecGen:
-    """recording proxy around a numpy Generator (for implementations that draw from the model's own generator)."""
+class RecGen(np.random.Generator):
+    """recording proxy around a numpy Generator (for implementations that draw from the model's own generator); it IS a
+    Generator, so code that normalises its argument with np.random.default_rng(rng) keeps it"""
 
     def __init__(self, g, rec):
+        super().__init__(g.bit_generator)
         self._g = g
         self._rec = rec
 
@@ -241,10 +249,6 @@ class RecGen:
         self._rec.normal(0.0, 1.0)
         return self._g.standard_normal(size, *a, **k)
 
-    def __getattr__(self, name):
-        return getattr(self._g, name)
-
-
 def _mvn_affine_check(seed, D):
     """sample_mvn_from_precision is affine in its standard-normal input: offset Q^-1 b (resp. mu), linear part A with A A^T = Q^-1."""
     from batchie import fast_mvn
@@ -257,14 +261,15 @@ def _mvn_affine_check(seed, D):
     b = r.normal(size=d) * 10.0 ** r.uniform(-1, 2)
     mu = r.normal(size=d)
 
-    class Z:
+    class Z(np.random.Generator):
         def __init__(self, zv):
+            super().__init__(np.random.PCG64(0))
             self.zv = zv
 
         def normal(self, loc=0.0, scale=1.0, size=None):
             return self.zv.copy()
 
-        def standard_normal(self, size=None):
+        def standard_normal(self, size=None, *a, **k):
             return self.zv.copy()
 
     Qinv = np.linalg.inv(Q)
@@ -325,6 +330,13 @@ def check_case(case):
         expected = {"_W0_step": s.n_clines, "_V0_step": s.n_dd, "_W_step": s.n_clines, "_V2_step": s.n_dd, "_V1_step": s.n_dd, "_prec_obs_step": 1, "_prec_W0_step": 1, "_prec_W_step": s.D}
         if name in expected:
             require(len(rec.visited) == expected[name], name + ".every_coordinate_once", lambda: "block %s drew %d of its %d coordinates" % (name, len(rec.visited), expected[name]))
+        # a value drawn from a coordinate's full conditional becomes that coordinate's new state
+        arr_name = {"_W_step": "W", "_V2_step": "V2", "_V1_step": "V1"}.get(name)
+        for blk, c_, val in rec.applied:
+            if blk == name and arr_name:
+                now = np.asarray(getattr(wm, arr_name), dtype=float)[c_]
+                require(bool(np.allclose(now, val, rtol=1e-5, atol=1e-6)), name + ".draw_becomes_state", lambda: "block %s: coordinate %d was drawn as %r but its state after the block is %r" % (name, c_, val.tolist(), now.tolist()))
+        rec.applied = [a_ for a_ in rec.applied if a_[0] != name]
         if s.n:
             mu = G.fitted(s)
             Mu = np.asarray(wm.Mu, dtype=float)
@@ -370,10 +382,18 @@ def check_case(case):
         return o_gamma(shape, scale, size)
 
     def p_mvn(Q, mu=None, mu_part=None, chol_factor=False, rng=None):
+        rec.last_c = None
         rec.mvn(Q, mu, mu_part, chol_factor)
         rec.in_mvn = True
         try:
-            return o_mvn(Q, mu=mu, mu_part=mu_part, chol_factor=chol_factor, rng=ctx_rng if rng is None else getattr(rng, "_g", rng))
+            val = o_mvn(Q, mu=mu, mu_part=mu_part, chol_factor=chol_factor, rng=ctx_rng if rng is None else getattr(rng, "_g", rng))
+            if rec.last_c is not None and rec.block is not None:
+                rec.applied.append((rec.block, rec.last_c, np.array(val, dtype=float, copy=True)))
+            return val
+        except (TypeError, AttributeError, NameError) as e:
+            # never a numerical condition: the draw itself is broken (the sampler's bare `except:` would hide it and keep the old row)
+            rec.fail(str(rec.block) + ".draw_failed", "the multivariate-normal draw of block %s raised %r, so the coordinate is not redrawn from its full conditional" % (rec.block, e))
+            raise
         finally:
             rec.in_mvn = False
 
@@ -382,7 +402,10 @@ def check_case(case):
     npr.normal, npr.gamma = p_normal, p_gamma
     np.random.normal, np.random.gamma = p_normal, p_gamma
     scm.sample_mvn_from_precision = p_mvn
-    model.set_rng(RecGen(np.random.default_rng(case["seed"] + 2), rec))
+    if not case.get("default_generator"):
+        model.set_rng(RecGen(np.random.default_rng(case["seed"] + 2), rec))
+    # else: the model is used exactly as its constructor's defaults leave it (no generator handed over): its draws then come from
+    # numpy's global functions / a fresh generator, which the patches above record all the same
     try:
         with np.errstate(all="ignore"):
             for step in range(case["steps"]):
